@@ -40,7 +40,11 @@ class Call(Expression):
         out += (STATUS, RESULT, POS) << Yield((CALL, func, POS))
 
 
-class KeywordArg:
+class KeywordArg(Expression):
+    # A keyword argument is part of the expression tree, so that the tree
+    # walks (ids, local references, rule references) reach its expression.
+    num_blocks = 0
+
     def __init__(self, name, expr):
         self.name = name
         self.expr = expr
